@@ -565,6 +565,27 @@ fn c03_case<K: Kmer + Send + Sync>(c: &mut Case, gc: &GCase) -> Result<(), Strin
         .collect();
     ensure!(node_keys == keyset, "graph k-mer set != retained k-mer set");
 
+    // the README pipeline without pruning: extension bits towards rejected k-mers dangle; they must
+    // simply not resolve, and everything that does resolve must still be exact
+    {
+        let keys: Vec<K> = rows0.iter().map(|r| r.0).collect();
+        let exts: Vec<Exts> = rows0.iter().map(|r| (r.1).0).collect();
+        let data: Vec<Pay> = rows0.iter().map(|r| (r.1).1.clone()).collect();
+        let dangling_bits: u32 = rows0
+            .iter()
+            .map(|r| {
+                let ks = kstr(&r.0);
+                ((r.1).0.val ^ prune_mask(&ks, (r.1).0.val, stranded, |x| keyset.contains(x))).count_ones()
+            })
+            .sum();
+        let index = BoomHashMap2::new(keys, exts, data);
+        let gu = compress_kmers_with_hash(stranded, &SpySpec::new(false), &index).finish();
+        let stu = check_edges(&gu, Some(&adj), false).map_err(|e| format!("unpruned graph: {}", e))?;
+        c.count("unpruned_graphs", 1);
+        c.count("dangling_extension_bits_in_unpruned_graphs", dangling_bits as u64);
+        c.count("edges_checked", stu.edges);
+    }
+
     // find_link for arbitrary queries
     let seqs_nodes: Vec<S> = (0..g.len()).map(|i| g.get_node(i).sequence().bytes()).collect();
     let ti = TermIndex::new(seqs_nodes.clone(), k, stranded);
@@ -706,7 +727,21 @@ pub fn run_c03(ctx: &Ctx) {
         let gc = gen_gcase(c);
         with_graph_k!(gc.kidx, K => c03_case::<K>(c, &gc))
     });
+    // hand-built graphs: arbitrary node sequences, every k-mer queried
+    let nh = ctx.n(20_000, 1_000_000);
+    ctx.run_group("handbuilt", nh, false, |c| {
+        let r = if c.rng.chance(1, 2) { check_handbuilt::<Kmer4>(&c.rng, false) } else if c.rng.chance(1, 2) { check_handbuilt::<Kmer5>(&c.rng, false) } else { check_handbuilt::<Kmer6>(&c.rng, false) };
+        let (q, a, p) = r?;
+        c.count("handbuilt_graphs", 1);
+        c.count("find_link_queries", q);
+        c.count("find_link_absent_queries", a);
+        c.count("handbuilt_palindromic_terminal_kmers", p);
+        c.nontrivial(H::new().u(c.idx).u(q).get());
+        Ok(())
+    });
     if !ctx.is_miri() {
+        ctx.require("dangling_extension_bits_in_unpruned_graphs", 100);
+        ctx.require("handbuilt_palindromic_terminal_kmers", 100);
         ctx.require("edges_checked", 1000);
         ctx.require("flip_edges", 50);
         ctx.require("hairpin_self_links", 5);
@@ -1034,6 +1069,19 @@ fn c06_case<K: Kmer + Send + Sync>(c: &mut Case, gc: &GCase) -> Result<(), Strin
         diff_summaries(&sd, &sm, "stranded direct", "forward-strand model")?;
         let st = check_edges(&g, Some(&sm.adjacency), true)?;
         ensure!(st.flips == 0, "stranded graph reports flip edges");
+        // unpruned route (filter -> compress_kmers_with_hash -> finish): extension bits towards rejected
+        // k-mers must not resolve - in particular not through the reverse complement
+        {
+            let (rows_u, _) = lib_filter_spy::<K, DnaString>(&input, true, gc.thr, false);
+            let keys: Vec<K> = rows_u.iter().map(|r| r.0).collect();
+            let exts: Vec<Exts> = rows_u.iter().map(|r| (r.1).0).collect();
+            let data: Vec<Pay> = rows_u.iter().map(|r| (r.1).1.clone()).collect();
+            let index = BoomHashMap2::new(keys, exts, data);
+            let gu = compress_kmers_with_hash(true, &SpySpec::new(false), &index).finish();
+            let stu = check_edges(&gu, Some(&sm.adjacency), false).map_err(|e| format!("stranded unpruned graph: {}", e))?;
+            ensure!(stu.flips == 0, "stranded unpruned graph reports flip edges");
+            c.count("stranded_unpruned_graphs", 1);
+        }
         c.count("stranded_cases", 1);
         c.count("stranded_kmers_present_on_both_strands", both_strands);
         if both_strands > 0 {
@@ -1272,7 +1320,7 @@ fn c09_case<K: Kmer + Send + Sync>(c: &mut Case, gc: &GCase) -> Result<(), Strin
     let colour = move |s: &[u8]| ((fnv(&canon_s(&s[..k.min(s.len())], stranded)) ^ salt) % ncol) as u8;
     // input graph variants: fully compressed / one k-mer per node / sharded-combined (partially) /
     // compressed under a colour predicate
-    let variant = c.rng.below(4);
+    let variant = c.rng.below(5);
     let (gd, rows) = lib_direct::<K>(&seqs, stranded, gc.thr);
     let input: DebruijnGraph<K, Pay> = match variant {
         0 => relabel(&gd, &colour),
@@ -1312,6 +1360,14 @@ fn c09_case<K: Kmer + Send + Sync>(c: &mut Case, gc: &GCase) -> Result<(), Strin
                 comb.fix_exts(None);
                 relabel(&comb, &colour)
             }
+        }
+        4 => {
+            // compressed from the UNPRUNED table: already maximal, but node ends carry extension
+            // bits towards rejected k-mers (dangling)
+            let input_u = dna_seqs(&seqs);
+            let (rows_u, _) = lib_filter_spy::<K, DnaString>(&input_u, stranded, gc.thr, false);
+            let bg = compress_kmers(stranded, &SpySpec::new(false), &rows_u);
+            relabel(&bg.finish(), &colour)
         }
         _ => {
             // compressed under the colour predicate: colour per k-mer
@@ -1402,7 +1458,7 @@ fn c09_case<K: Kmer + Send + Sync>(c: &mut Case, gc: &GCase) -> Result<(), Strin
     s2.payload.clear();
     let _ = out_copy;
     // route equality without censoring and with the always-true predicate
-    if censor.is_empty() && !by_colour && variant != 3 {
+    if censor.is_empty() && !by_colour && variant != 3 && variant != 4 {
         let sd = summarize(&pay_views(&gd), k, stranded);
         ensure!(
             s1.partition == sd.partition && s1.adjacency == sd.adjacency,
@@ -1422,6 +1478,7 @@ fn c09_case<K: Kmer + Send + Sync>(c: &mut Case, gc: &GCase) -> Result<(), Strin
         0 => c.hit("input_fully_compressed"),
         1 => c.hit("input_one_kmer_per_node"),
         2 => c.hit("input_partially_compressed"),
+        4 => c.hit("input_with_dangling_extensions"),
         _ => c.hit("input_colour_compressed"),
     }
     if n_in > 1 && (!censor.is_empty() || n_out < n_in as u64) {
@@ -1456,6 +1513,7 @@ pub fn run_c09(ctx: &Ctx) {
         ctx.require("cases_merging_nodes", 200);
         ctx.require("input_one_kmer_per_node", 100);
         ctx.require("input_partially_compressed", 100);
+        ctx.require("input_with_dangling_extensions", 100);
         ctx.require("tip_censor_sets", 50);
         ctx.require("route_equalities_checked", 50);
     }
